@@ -222,22 +222,22 @@ func (q rangeQ) bleveQuery() query.Query {
 	return bq
 }
 
-// valueInRange is the reference semantics. Numbers are compared as float64;
-// an open end of a numeric range is the bound -Inf / +Inf with the
-// (defaulted) inclusive flag, as documented for the query. Dates are compared
-// as nanosecond counts; an open end admits every timestamp.
+// valueInRange is the reference semantics. Numbers are compared as float64,
+// dates as nanosecond counts; an open end is unbounded: it admits every value,
+// including an infinite one (the property: "matches a document if and only if
+// one of its values lies in the range", and nothing lies beyond an open end).
 func (q rangeQ) valueInRange(v int64) bool {
 	if q.Kind == kNum {
 		f := refImgToFloat(v)
-		lo, hi := math.Inf(-1), math.Inf(1)
+		okLo, okHi := true, true
 		if q.Lo != nil {
-			lo = refImgToFloat(*q.Lo)
+			lo := refImgToFloat(*q.Lo)
+			okLo = f > lo || (q.inclLo() && f == lo)
 		}
 		if q.Hi != nil {
-			hi = refImgToFloat(*q.Hi)
+			hi := refImgToFloat(*q.Hi)
+			okHi = f < hi || (q.inclHi() && f == hi)
 		}
-		okLo := f > lo || (q.inclLo() && f == lo)
-		okHi := f < hi || (q.inclHi() && f == hi)
 		return okLo && okHi
 	}
 	okLo := q.Lo == nil || v > *q.Lo || (q.inclLo() && v == *q.Lo)
@@ -279,8 +279,8 @@ func (q rangeQ) plan(st *enumState) (run bool, predictedBlowup bool, nontrivial 
 	si := analyseSplit(lo, hi)
 	nontrivial = splitNontrivial(splitCase{lo, hi}, si)
 	run, predictedBlowup = st.safeToRun(si, 1<<17)
-	if q.Kind == kDate && (q.Lo == nil || q.Hi == nil) {
-		// an open date end may be mapped to the int64 extreme instead of the
+	if q.Lo == nil || q.Hi == nil {
+		// an open end may be mapped to the int64 extreme instead of the
 		// image of the infinity: both must be safe
 		lo2, hi2 := q.effRange(math.MinInt64, math.MaxInt64)
 		run2, blow2 := st.safeToRun(analyseSplit(lo2, hi2), 1<<17)
